@@ -606,6 +606,10 @@ class ExprMixin:
         if isinstance(ty, TMap):
             k = self.coerce(idx, ty.k)
             cell = z3.Select(base.t, k.t)
+            if ty.total:
+                if not isinstance(ty.v, TSeq):
+                    raise Unsupported('defaultdict of a non-list default')
+                return V(ty.v, z3.If(ty.vopt.is_some(cell), ty.vopt.val(cell), z3.Empty(ty.v.sort())))
             if not self.raise_if(st, ty.vopt.is_none(cell), 'KeyError', exits, line, 'missing key'):
                 return None
             return V(ty.v, ty.vopt.val(cell))
